@@ -22,6 +22,7 @@ func (c12) ID() string { return "C12" }
 func (c12) Rule() string {
 	return "jpeg2000.Encoder{Lossless:false, single tile, NumLayers=1, no rate target} -> Decoder. The strict 15444-1 walker reads SIZ/COD/QCD from the emitted stream; step of band b = 2^(R_b-eps_b)(1+mu_b/2^11); per-sample bound T(x) = sum_k |S(x,k)| * step_b(k) with S the synthesis operator of the independent float64 9/7 inverse (exact unit-impulse gains for images up to 4096 samples, absolute-valued lifting upper bound above), combined through |ICT^-1| when the colour transform is on, plus the fixed allowance A (2 for P<=12, 4 above; doubled with ICT). Every decoded sample within T(x)+A of the source and inside the declared range; geometry equal. " +
 		"cases: every quality 1..100; NumLevels 0..6; P in {8,12,16}; signed/unsigned; components {1,3}; code-blocks {16,32,64}; all sizes up to 12x12, sampled sizes to 96 and to 512; noise, extremes, smooth, constant. " +
+		"(hist) every precision 1..16, each encode made right after an unrelated 8x8 irreversible encode with neighbouring quality / levels / precision (values derived from those three must not carry over between Encoder objects). " +
 		"non-trivial: encoder/decoder accepted, the walker parsed QCD, all samples compared; distinct = distinct descriptor"
 }
 func (c12) Assumptions() []string {
